@@ -950,6 +950,40 @@ def r18_10(rep: Report) -> None:
     rep.extra['classes_with_carried_state'] = n
 
 
+def r18_13(rep: Report) -> None:
+    """R18.13  how far a decode time may be off is decided where the MediaSegment is created (one frame, two for
+    the first segment of a live window, half a frame for audio) and handed over as `tolerance`.  The comparison of
+    the decode time with its expectation must use that value - `delta=self.tolerance`, directly or through a
+    local bound once to it - otherwise corruptions below the other quantity (a whole second, say) pass."""
+    from ..core import subst_locals
+    rid = 'R18.13'
+    rel = f'{V}/media_segment.py'
+    tree = rep.repo.tree(rel)
+    cls = need(find_class(tree, 'MediaSegment'), 'MediaSegment')
+    n = 0
+    for _c, fn in rep.repo.expanded_functions(rel):
+        if _c is not cls:
+            continue
+        for call in [x for x in ast.walk(fn) if isinstance(x, ast.Call) and isinstance(x.func, ast.Attribute)
+                     and x.func.attr == 'check_almost_equal']:
+            txt = ' '.join(_expand(fn, a) for a in call.args)
+            if 'expected_decode_time' not in txt:
+                continue
+            n += 1
+            construct = f'{rel}::MediaSegment.{fn.name}'
+            delta = next((k.value for k in call.keywords if k.arg == 'delta'), call.args[2] if len(call.args) > 2 else None)
+            got = norm(subst_locals(fn, delta, allow_calls=True)) if delta is not None else '(none: exact equality)'
+            if delta is None or got == 'self.tolerance':
+                rep.ok(rid, construct, 'decode time compared within the segment tolerance', got)
+            else:
+                rep.fail(rid, construct, 'decode time compared within the segment tolerance',
+                         f'the decode time is compared with its expectation within `{got}`, not within `self.tolerance` - the '
+                         'frame-sized tolerance chosen where the segment was created: a decode time that is off by less than '
+                         'that other quantity is accepted', call)
+    if n == 0:
+        raise AnalysisError('MediaSegment: the almost-equal comparison of the decode time was not found')
+
+
 def r18_11(rep: Report) -> None:
     """R18.11  a gap in a SegmentTimeline is an `S@t` that differs from the running end of the previous entry; the
     validator finds it because the segments it then asks for carry other decode times.  That needs every
@@ -1026,6 +1060,7 @@ def analyse(rep: Report) -> None:
     rep.rule('R18.10', 'an element\'s own checks are not switched off by state carried over a manifest refresh', floor=1)
     rep.rule('R18.11', 'every S@t of a SegmentTimeline sets the running start (a gap is visible)', floor=1)
     rep.rule('R18.12', 'an expectation that is an equality is checked on both sides', floor=5)
+    rep.rule('R18.13', 'the decode time is compared within the tolerance the segment was created with', floor=1)
     r18_1_2(rep)
     r18_3(rep)
     r18_4(rep)
@@ -1036,3 +1071,4 @@ def analyse(rep: Report) -> None:
     r18_9(rep)
     r18_10(rep)
     r18_11(rep)
+    r18_13(rep)
